@@ -399,6 +399,19 @@ def embed_level_down(VA, vars_b):
     return out
 
 
+def embed_ppt_to_level1(VA, vars_b):
+    """PPT point (M[i]) -> level-1 hierarchy point (M_k, X_k := M_k); hierarchy variables come in the order M_0, X_0, M_1, X_1, ..."""
+    return [VA[f"M[{j // 2}]"] for j, _ in enumerate(vars_b)]
+
+
+def embed_level1_to_ppt(VA, vars_b):
+    out = []
+    for v in vars_b:
+        i = int(v.name[v.name.index("[") + 1:v.name.index("]")])
+        out.append(VA[2 * i])
+    return out
+
+
 def lemmas_level_down(dims, level, n):
     dl = [dims[0]] + [dims[1]] * level
 
@@ -430,6 +443,14 @@ def order_obligations(tier):
                 obs.append(FamilyTask("ppt_distinguishability.value_at_least_every_explicit_locc_measurement", {"instance": name, "subsystems": S, "dimensions": dims, "measurement": lab},
                                       (lambda vs=vs, ps=ps, S=S, dims=dims: ppt_distinguishability(vs, S, dims, ps, primal_dual="primal")), fam, best=best,
                                       trusted=["product projectors are PSD with PSD partial transpose (checked exactly)"]))
+        # level 1 of the hierarchy = PPT value (party 0 transposed, as the hierarchy does): inclusion of the captured programs both ways
+        call_h = (lambda vs=vs, ps=ps, dims=dims: symmetric_extension_hierarchy([np.array(v) for v in vs], ps, 1, list(dims)))
+        call_p = (lambda vs=vs, ps=ps, dims=dims: ppt_distinguishability(vs, [0], dims, ps, primal_dual="primal"))
+        ppt_dual = (lambda vs=vs, ps=ps, dims=dims: float(np.real(ppt_distinguishability(vs, [0], dims, ps, primal_dual="dual")[0])))
+        obs.append(OrderTask("symmetric_extension_hierarchy.level_one_equals_ppt_value_by_program_inclusion", {"instance": name, "dim": dims, "direction": "PPT program into level 1"},
+                             call_p, call_h, embed_ppt_to_level1, value_b=lambda r: float(r), replay_a=ppt_dual))
+        obs.append(OrderTask("symmetric_extension_hierarchy.level_one_equals_ppt_value_by_program_inclusion", {"instance": name, "dim": dims, "direction": "level 1 into PPT program"},
+                             call_h, call_p, embed_level1_to_ppt, value_a=lambda r: float(r), replay_b=ppt_dual))
         levels = [1] + ([2] if (dims == [2, 2] and n == 2) or (T and n == 2) else [])
         for level in levels:
             for lab, els in product_measurements(dims)[:(4 if T else 2)]:
